@@ -79,6 +79,10 @@ func (*Typechecker).findOverload
 func (*Typechecker).findOverload#2 [C09]
   requires t != nil
   loop 0 each clear when true
+  // the exact-type rule: going on to the next operand means this operand's type equals the (unified) parameter type ...
+  loop 1 end requires ddptypes.Equal(actualParamType.Type, operand.typ)
+  // ... and an operand bound to a Referenz parameter is assignable (otherwise the candidate is dropped altogether)
+  loop 1 end requires actualParamType.IsReference ==> isAssignable
 
 // --- C04 "operand of a wrong type" / C02 checker side, unary operators ---
 func (*Typechecker).VisitUnaryExpr [C04, C02]
